@@ -3,6 +3,7 @@ import Rare.Proofs.Pipeline
 import Rare.Model.Lockset
 import Rare.Proofs.Lockset
 import Rare.Proofs.LocksetHB
+import Rare.Proofs.C05Status
 import Rare.Model.PipelineSkeleton
 import Rare.Gen.Skeleton
 import Rare.Proofs.AggLoopTrace
@@ -198,6 +199,28 @@ theorem lockset_census_classified :
     Gen.Access.census.all (fun p => p.2 != "unclassified") = true ∧
     Gen.Access.extractorInstanceConfined = true ∧ Gen.Access.typeErrors = [] := by
   refine ⟨by decide +kernel, rfl, rfl⟩
+
+/-- The status bookkeeping the render goroutine reads (model `C05Status`, run against the real Batcher by the
+    `status` correspondence op): `stopFileReading`'s in-place removal loop removes exactly the first equal
+    entry and counts it; and as long as no source is opened twice, no state of the active list ever contains a
+    name twice – a status line showing `b.log, b.log` (what a torn read of the backing array shows) is a state
+    that never existed. -/
+theorem status_stop_removes_first (s : C05Status.St) (n : String) :
+    C05Status.step s (.stop n) =
+      if n ∈ s.active then { s with active := s.active.erase n, readCount := s.readCount + 1 } else s :=
+  C05Status.step_stop s n
+
+theorem status_never_shows_a_name_twice (ops : List C05Status.Op) (s : C05Status.St)
+    (h : s.active.Nodup) (hf : C05Status.FreshStarts s ops) :
+    ∀ st ∈ C05Status.states s ops, st.active.Nodup :=
+  C05Status.states_nodup ops s h hf
+
+/-- Non-vacuity: the schedule of the seeded change (three sources, each finishing and being re-opened). -/
+example : C05Status.FreshStarts {} [.start "a", .start "b", .start "c", .stop "a", .start "a", .stop "b", .start "b"] ∧
+    (C05Status.run {} [.start "a", .start "b", .start "c", .stop "a", .start "a", .stop "b", .start "b"]).active = ["c", "a", "b"] := by
+  refine ⟨?_, by decide⟩
+  simp only [C05Status.FreshStarts, C05Status.step_start, C05Status.step_stop]
+  decide
 
 /-- The step from "both accesses hold the same mutex" to "ordered by happens-before", which the reading of
     `lockset_ok` rests on, proved over an abstract trace semantics of exclusive mutexes (Proofs/LocksetHB:
